@@ -107,6 +107,9 @@ def spec_fields(spec):
     return m.groupdict() if m else None
 
 
+CODE_POINT_BORDERS = [-1, 0, 1, 0x7f, 0x80, 0xff, 0x100, 0x7ff, 0x800, 0xd7ff, 0xd800, 0xdfff, 0xe000, 0xfffd, 0xffff, 0x10000, 0x10fffe, 0x10ffff, 0x110000, 1 << 31, 1 << 32]
+
+
 class C18(Property):
     id = 'C18'
     configs = ('A',)
@@ -130,6 +133,10 @@ class C18(Property):
                                 ('float', bits(-0.0)), ('float', bits(float('inf'))), ('float', bits(float('nan'))), ('float', bits(1e16)),
                                 ('float', bits(1e-7)), ('str', 'héllo'), ('str', ''), ('bool', True), ('bool', False)):
                 yield {'spec': spec, 'kind': kind, 'value': value}
+        # the 'c' conversion at the borders of the code point range (and of the UTF-8 length classes, the surrogates)
+        for v in CODE_POINT_BORDERS:
+            for spec in ('c', '3c', '<4c', 'x^5c', '0c'):
+                yield {'spec': spec, 'kind': 'int', 'value': str(v)}
 
     def gen(self, cs, ctx):
         spec = gen_spec(cs)
@@ -140,6 +147,8 @@ class C18(Property):
         if k == 0:
             value = str(vg.gen_int(cs))
             kind = 'int'
+            if spec.endswith('c') and cs.bool(160):
+                value = str(cs.pick(CODE_POINT_BORDERS) + cs.pick([0, 0, 1, -1]))
         elif k == 1:
             value = bits(vg.gen_double(cs))
             kind = 'float'
